@@ -10,10 +10,14 @@ package main
 
 import (
 	"fmt"
+	"io"
 	"math/rand/v2"
+	"net"
+	"sync/atomic"
 	"time"
 
 	"github.com/vmware/go-ipfix/pkg/entities"
+	"github.com/vmware/go-ipfix/pkg/exporter"
 
 	"verif/harness/gen"
 	"verif/harness/hx"
@@ -54,6 +58,14 @@ func main() {
 			c.Journal(k, map[string]any{"kind": "udp-refresh", "v6": v6, "domain": domain})
 			c.Eval(1)
 			refreshSession(c, k, r, v6, domain, small)
+			continue
+		}
+		if k%16 == 5 {
+			// two goroutines send on one exporting process while the collector does not read: the second message is
+			// written seconds after its SendSet call began - its export time is the second of SENDING
+			c.Journal(k, map[string]any{"kind": "blocked-sender", "domain": domain})
+			c.Eval(1)
+			c.Guard(k, "exporter", nil, func() { blockedSenderSession(c, k, r, domain) })
 			continue
 		}
 		wrap := r.IntN(3) == 0
@@ -197,6 +209,156 @@ func main() {
 // refreshSession checks the sequence-number rule in capture order while the UDP template
 // refresh runs concurrently with application sends (every transmitted message, whoever
 // sent it, must carry the count of data records transmitted so far).
+// blockedSenderSession: a TCP peer that accepts and does not read. Sender A fills the socket buffers until it
+// is stuck inside Write; then sender B calls SendSet with a marker record and has to wait for A; 2.2 s later the
+// peer starts reading. B's message cannot have been sent before that instant, so its export time ("the wall-clock
+// second of sending") must not lie before it - however early B's call began. Sequence numbers are checked in
+// stream order as everywhere in C08. No verdict depends on how long anything took, only on this order of events.
+func blockedSenderSession(c *hx.Ctx, k int, r *rand.Rand, domain uint32) {
+	ln, err := net.Listen("tcp", "127.0.0.1:0")
+	if err != nil {
+		c.Inconclusive("listen: " + err.Error())
+		return
+	}
+	defer ln.Close()
+	resume := make(chan struct{})
+	capCh := make(chan []byte, 1)
+	go func() {
+		conn, err := ln.Accept()
+		if err != nil {
+			capCh <- nil
+			return
+		}
+		defer conn.Close()
+		<-resume
+		b, _ := io.ReadAll(conn)
+		capCh <- b
+	}()
+	release := func() {
+		select {
+		case <-resume:
+		default:
+			close(resume)
+		}
+	}
+	defer release()
+	ep, err := exporter.InitExportingProcess(exporter.ExporterInput{CollectorAddress: ln.Addr().String(), CollectorProtocol: "tcp", ObservationDomainID: domain})
+	if err != nil {
+		c.Inconclusive("session: " + err.Error())
+		return
+	}
+	el := []regtable.Elem{lib.CustomElems[11], lib.CustomElems[8]} // counter + variable-length filler
+	tid := ep.NewTemplateID()
+	ts, _ := lib.TemplateSet(tid, el, 0)
+	if _, err := ep.SendSet(ts); err != nil {
+		c.Violation(k, "send-error", err.Error(), nil)
+		ep.CloseConnToCollector()
+		return
+	}
+	const marker = 0xBBBBBBBB
+	mkSet := func(counter uint32, fill int) entities.Set {
+		set := entities.NewSet(false)
+		if err := lib.FillDataSet(set, tid, el, [][][]byte{{refipfix.PU(4, uint64(counter)), make([]byte, fill)}}, nil); err != nil {
+			panic(err)
+		}
+		return set
+	}
+	var progress atomic.Int64
+	var stopA atomic.Bool
+	aDone := make(chan error, 1)
+	go func() {
+		for i := uint32(1); !stopA.Load() && i < 100000; i++ {
+			if _, err := ep.SendSet(mkSet(i, 10000)); err != nil {
+				aDone <- err
+				return
+			}
+			progress.Add(1)
+		}
+		aDone <- nil
+	}()
+	// wait until A has made no progress for 300 ms: it is inside Write, holding the exporter's send lock
+	stuck := false
+	for last, since, t0 := int64(-1), time.Now(), time.Now(); time.Since(t0) < 30*time.Second; time.Sleep(5 * time.Millisecond) {
+		if p := progress.Load(); p != last {
+			last, since = p, time.Now()
+		} else if time.Since(since) > 300*time.Millisecond {
+			stuck = true
+			break
+		}
+	}
+	if !stuck {
+		stopA.Store(true)
+		release()
+		<-aDone
+		ep.CloseConnToCollector()
+		c.Inconclusive("blocked-sender: sender A never got stuck")
+		return
+	}
+	type bres struct {
+		t0, t1 time.Time
+		err    error
+	}
+	bDone := make(chan bres, 1)
+	go func() {
+		t0 := time.Now()
+		_, err := ep.SendSet(mkSet(marker, 8))
+		bDone <- bres{t0, time.Now(), err}
+	}()
+	time.Sleep(2200 * time.Millisecond)
+	stopA.Store(true)
+	resumedAt := time.Now()
+	release()
+	var b bres
+	select {
+	case b = <-bDone:
+	case <-time.After(30 * time.Second):
+		c.Violation(k, "send-hang", "SendSet of the second goroutine did not return within 30 s after the collector resumed reading", nil)
+		return
+	}
+	aErr := <-aDone
+	ep.CloseConnToCollector()
+	stream := <-capCh
+	if b.err != nil || aErr != nil {
+		c.Violation(k, "send-error", fmt.Sprintf("a send failed although the collector only was slow: A %v, B %v", aErr, b.err), nil)
+		return
+	}
+	msgs, tail := refipfix.Frame(stream)
+	if len(tail) != 0 {
+		c.Violation(k, "malformed", fmt.Sprintf("%d stray bytes at the end of the stream", len(tail)), nil)
+		return
+	}
+	var cnt uint32
+	found := false
+	for i, raw := range msgs {
+		m, err := refipfix.ParseMessage(raw)
+		if err != nil {
+			c.Violation(k, "malformed", fmt.Sprintf("message %d: %v", i, err), nil)
+			return
+		}
+		if m.SetID != 2 {
+			cnt++ // every data message of this session carries one record
+		}
+		if m.Seq != cnt {
+			c.Violation(k, "seq:concurrent-senders", fmt.Sprintf("message %d in stream order carries sequence %d, %d data records were transmitted up to and including it", i, m.Seq, cnt), nil)
+			return
+		}
+		if m.SetID != 2 && len(m.Body) >= 4 && refipfix.GU(m.Body[:4]) == marker {
+			found = true
+			if int64(m.ExportTime) < resumedAt.Unix() || int64(m.ExportTime) > b.t1.Unix() {
+				c.Violation(k, "export-time:blocked-sender", fmt.Sprintf("the message of the second goroutine carries export time %d; it was sent between %d (the collector resumed reading; the first goroutine was stuck in Write until then) and %d (its SendSet returned); its SendSet call began at %d", m.ExportTime, resumedAt.Unix(), b.t1.Unix(), b.t0.Unix()), nil)
+				return
+			}
+		}
+	}
+	if !found {
+		c.Violation(k, "message-missing", "the second goroutine's SendSet returned success but its message is not in the stream", nil)
+		return
+	}
+	c.Add("blocked_sender_sessions", 1)
+	c.Add("messages", int64(len(msgs)))
+	c.Nontrivial(hx.H64("blocked-sender", k, len(msgs)))
+}
+
 func refreshSession(c *hx.Ctx, k int, r *rand.Rand, v6 bool, domain uint32, small []regtable.Elem) {
 	s, err := lib.NewExpSession("udp", v6, domain, 1, 0)
 	if err != nil {
